@@ -459,7 +459,7 @@ func (parser *Parser) ParseExpression(depth int) (res Sexp, err error) {
 		if tok.str == "NaN" {
 			f = NaN
 		} else {
-			f, err = strconv.ParseFloat(tok.str, SexpFloatSize)
+			f, err = strconv.ParseFloat(strings.ReplaceAll(tok.str, "_", ""), SexpFloatSize)
 			if err != nil {
 				return SexpNull, err
 			}
